@@ -15,7 +15,7 @@ Proof. repeat split; reflexivity. Qed.
 (* constants that appear as literals inside model functions, pinned through the behaviour at the boundary *)
 Lemma active_chords_capacity a c :
   push_active a c = if Nat.ltb (length (cv_active c)) (N.to_nat src_ACTIVE_CHORDS_CAP)
-                    then Ok (set_cv_active (cv_active c ++ [a]) c) else Panic "chords v2: active chords has room".
+                    then Ok (set_cv_active (cv_active c ++ [a]) c) else Ok (no_chord_activations c).
 Proof. reflexivity. Qed.
 
 Lemma reload_fallback_threshold keys_up t :
